@@ -635,6 +635,15 @@ func gen(c *lib.Ctx) {
 		}
 	}
 
+	// windows above the threshold: slices.SortFunc switches to pdqsort (not stable); with
+	// pairwise distinct delays the result is still determined and the model must agree
+	for _, capN := range []int{13, 16, 24, 40} {
+		for _, kind := range []int{0, 3} {
+			c.Count("lucky:large-window-distinct-delays")
+			luckyHistory(c, rl, capN, int(rl.Range(1, int64(capN)+2)), kind, 3*capN)
+		}
+	}
+
 	rn := r.Fork("ntimed")
 	n := c.Scale(600, 6000)
 	for i := 0; i < n; i++ {
